@@ -90,7 +90,7 @@ fn insert_section(b: &[u8], secs: &[(u8, usize, usize)], before: usize, sec: &[u
 pub fn mutate(r: &mut Rng, seed: &[u8]) -> (Vec<u8>, &'static str) {
     let secs = sections(seed);
     let mut b = seed.to_vec();
-    let k = r.weighted(&[8, 12, 6, 6, 5, 5, 5, 4, 4, 4, 4, 4, 3, 3, 3, 2]);
+    let k = r.weighted(&[8, 12, 6, 6, 5, 5, 5, 4, 4, 4, 4, 4, 3, 3, 3, 2, 5]);
     match k {
         0 => {
             if b.len() > 9 {
@@ -255,8 +255,94 @@ pub fn mutate(r: &mut Rng, seed: &[u8]) -> (Vec<u8>, &'static str) {
             }
             (m, "random-after-header")
         }
+        16 => inflate_count(r, b),
         _ => ((0..r.below(64)).map(|_| r.next() as u8).collect(), "random"),
     }
+}
+
+/// the item count at the start of a vector-shaped section (of the module, or of a core module nested anywhere in a
+/// component) is replaced by a huge one; the section keeps its length (bytes are dropped from its end), so every
+/// enclosing size field stays right. A parser that trusts the declared count before it has seen the items allocates for it.
+fn inflate_count(r: &mut Rng, mut b: Vec<u8>) -> (Vec<u8>, &'static str) {
+    // start offsets of core modules: the input itself or every embedded `\0asm\x01\0\0\0`
+    let mut mods: Vec<usize> = vec![];
+    let magic = [0u8, 0x61, 0x73, 0x6d, 1, 0, 0, 0];
+    let mut i = 0;
+    while i + 8 <= b.len() {
+        if b[i..i + 8] == magic {
+            mods.push(i);
+        }
+        i += 1;
+    }
+    let mut cands: Vec<(usize, usize)> = vec![]; // (start of the section body, end of the section)
+    for m in mods {
+        for (id, at, end) in sections(&b[m..]) {
+            if matches!(id, 1 | 2 | 3 | 4 | 5 | 6 | 7 | 9 | 10 | 11 | 13) {
+                // skip id and size
+                let mut j = m + at + 1;
+                while j < b.len() && b[j] & 0x80 != 0 {
+                    j += 1;
+                }
+                cands.push((j + 1, m + end));
+            }
+        }
+    }
+    if cands.is_empty() {
+        return (b, "inflate-count");
+    }
+    let (body, end) = *r.pick(&cands);
+    // the old count
+    let mut j = body;
+    while j < end && b[j] & 0x80 != 0 {
+        j += 1;
+    }
+    let old_len = j + 1 - body;
+    let huge: u32 = match r.below(4) {
+        0 => u32::MAX,
+        1 => u32::MAX - r.below(1 << 20) as u32,
+        2 => 0x8000_0000 + r.below(1 << 30) as u32,
+        _ => 0x2000_0000 + r.below(1 << 28) as u32,
+    };
+    let new = leb(huge);
+    if body + old_len > end || end - body < new.len() + 1 {
+        return (b, "inflate-count");
+    }
+    let rest: Vec<u8> = b[body + old_len..end].to_vec();
+    let keep = (end - body) - new.len();
+    let mut nb = new;
+    nb.extend_from_slice(&rest[..keep.min(rest.len())]);
+    while nb.len() < end - body {
+        nb.push(0);
+    }
+    b[body..end].copy_from_slice(&nb);
+    (b, "inflate-count")
+}
+
+/// one input, the three parsers; used in a child process for inputs that may make an allocation fail (an abort cannot be caught)
+pub fn parse_one(path: &str) {
+    let bytes = std::fs::read(path).expect("input file");
+    println!("{}", outcomes(&bytes).0.join(" "));
+}
+
+fn outcomes(bytes: &[u8]) -> (Vec<String>, Vec<(usize, String)>) {
+    let mut outcome = vec![];
+    let mut panics = vec![];
+    for (name, which) in [("module", 0), ("module-mm", 1), ("component", 2)] {
+        let res = guarded(|| match which {
+            0 => Module::parse(bytes, false).map(|_| ()).map_err(|e| format!("{e}")),
+            1 => Module::parse(bytes, true).map(|_| ()).map_err(|e| format!("{e}")),
+            _ => Component::parse(bytes, false).map(|_| ()).map_err(|e| format!("{e}")),
+        });
+        match res {
+            Err(p) => {
+                outcome.push(format!("{name}=PANIC"));
+                panics.push((which, p));
+            }
+            Ok(Err(_)) => outcome.push(format!("{name}=ERR")),
+            Ok(Ok(())) => outcome.push(format!("{name}=OK")),
+        }
+    }
+    (outcome, panics)
 }
 
 fn site(p: &str) -> String {
@@ -326,22 +412,37 @@ pub fn run(ctx: &mut Ctx) {
         let facts = crate::parse_facts::facts(&bytes);
         ctx.case_line(&format!("parse {case} kind={kind} len={} {}", bytes.len(), facts.line()));
         let mut fails: Vec<(String, String)> = vec![];
-        let mut outcome = vec![];
-        for (name, which) in [("module", 0), ("module-mm", 1), ("component", 2)] {
-            let res = guarded(|| match which {
-                0 => Module::parse(&bytes, false).map(|_| ()).map_err(|e| format!("{e}")),
-                1 => Module::parse(&bytes, true).map(|_| ()).map_err(|e| format!("{e}")),
-                _ => Component::parse(&bytes, false).map(|_| ()).map_err(|e| format!("{e}")),
-            });
-            match res {
-                Err(p) => {
-                    outcome.push(format!("{name}=PANIC"));
-                    fails.push((format!("panic-{}-{}", if which == 2 { "component" } else { "module" }, site(&p)), format!("{kind}: {p}")));
+        let outcome: Vec<String> = if kind == "inflate-count" {
+            // in a child process: a failed allocation aborts, which no handler can turn into an observation
+            let path = format!("{}/one.bin", ctx.outdir);
+            std::fs::write(&path, &bytes).unwrap();
+            let out = std::process::Command::new(std::env::current_exe().unwrap()).args(["parse-one", &path]).output().expect("child process");
+            let text = String::from_utf8_lossy(&out.stdout).to_string();
+            let line = text.lines().rev().find(|l| l.starts_with("module=")).unwrap_or("").to_string();
+            if !out.status.success() || line.is_empty() {
+                let err = String::from_utf8_lossy(&out.stderr);
+                let what = err.lines().find(|l| l.contains("memory allocation") || l.contains("overflow") || l.contains("abort")).unwrap_or("the process died").to_string();
+                fails.push(("abort-while-parsing".to_string(), format!("{kind}: {what} ({})", out.status)));
+                ctx.count("child-process-aborted");
+                vec!["module=ABORT".to_string(), "module-mm=ABORT".to_string(), "component=ABORT".to_string()]
+            } else {
+                ctx.count("run-in-child-process");
+                let o: Vec<String> = line.split(' ').map(|x| x.to_string()).collect();
+                if o.iter().any(|x| x.ends_with("=PANIC")) {
+                    // repeat in this process for the message
+                    for (which, p) in outcomes(&bytes).1 {
+                        fails.push((format!("panic-{}-{}", if which == 2 { "component" } else { "module" }, site(&p)), format!("{kind}: {p}")));
+                    }
                 }
-                Ok(Err(_)) => outcome.push(format!("{name}=ERR")),
-                Ok(Ok(())) => outcome.push(format!("{name}=OK")),
+                o
             }
-        }
+        } else {
+            let (o, panics) = outcomes(&bytes);
+            for (which, p) in panics {
+                fails.push((format!("panic-{}-{}", if which == 2 { "component" } else { "module" }, site(&p)), format!("{kind}: {p}")));
+            }
+            o
+        };
         if outcome.iter().any(|o| o.ends_with("=OK")) {
             ctx.count("accepted-by-some-parser");
         }
